@@ -6,6 +6,7 @@
   facts C12 proves. Other types and commands: differential / oracle only (see evidence).
 -/
 import ZanVerif.Data.HashRef
+import ZanVerif.Data.HashReal
 
 namespace Z.Props.C08
 
@@ -23,5 +24,35 @@ theorem C08_abs_hset (E : Z.HashInv.Enc) {m : List Z.Ref.KV} (hs : Z.Ref.Sorted 
 theorem C08_abs_hdel (E : Z.HashInv.Enc) {m : List Z.Ref.KV} (hs : Z.Ref.Sorted m) (k f : Z.Ref.Bytes) :
     Z.HashRef.abs E (Z.HashInv.hdel E m k f) = Z.HashRef.specDel (Z.HashRef.abs E m) k f :=
   Z.HashRef.abs_hdel E hs k f
+
+end Z.Props.C08
+
+/-! ### tie of the abstract hash model to the executable one and to the real codec -/
+
+namespace Z.Props.C08
+open Z.HashExec
+
+/-- the executable functions that the `datacore` correspondence runs against the real store are, for every
+    codec `E` satisfying the abstract facts, literally the functions the theorems above talk about -/
+theorem C08_exec_is_model (E : Z.HashInv.Enc) :
+    hset (ofEnc E) = Z.HashInv.hset E ∧ hdel (ofEnc E) = Z.HashInv.hdel E ∧
+    hget (ofEnc E) = Z.HashRef.hget E ∧ hlen (ofEnc E) = Z.HashInv.hlen E ∧
+    hsetReply (ofEnc E) = Z.HashRef.hsetReply E ∧ hdelReply (ofEnc E) = Z.HashRef.hdelReply E :=
+  ⟨rfl, rfl, rfl, rfl, rfl, rfl⟩
+
+end Z.Props.C08
+
+namespace Z.Props.C08
+
+/-- … and the REAL hash key codec (the encoders of `Z.Codec`, compared byte for byte with rockredis by
+    C12's run) satisfies every abstract codec fact for key parts that fit the 2-byte length field -/
+theorem C08_real_codec_facts (table k k' f f' x : List UInt8) (hk : k.length < 65536) (hk' : k'.length < 65536) :
+    ((Z.HashExec.realFns table).fieldK k f = (Z.HashExec.realFns table).fieldK k' f' → k = k' ∧ f = f') ∧
+    ((Z.HashExec.realFns table).metaK k = (Z.HashExec.realFns table).metaK k' → k = k') ∧
+    ((Z.HashExec.realFns table).metaK k ≠ (Z.HashExec.realFns table).fieldK k' f) ∧
+    (((Z.HashExec.realFns table).start k ≤ x ∧ x < (Z.HashExec.realFns table).stop k) ↔
+      ∃ g, x = (Z.HashExec.realFns table).fieldK k g) :=
+  ⟨Z.HashReal.field_inj table k f k' f' hk hk', Z.HashReal.meta_inj table k k',
+   Z.HashReal.meta_ne_field table k k' f, Z.HashReal.range_iff table k x⟩
 
 end Z.Props.C08
